@@ -75,3 +75,124 @@ Proof. exact step_errs_in_model. Qed.
 Check c13_errs_in_model.
 Print Assumptions c13_errs_in_model.
 
+
+(* ---- every mid-packet read has a deadline (PauseTimeout) ---- *)
+(* ---- to append to coq/props/C13.v (the same block fits coq/props/C10.v) ----
+   needs, in addition to the imports already there:                                  *)
+From Coq Require Import List.
+From MQ Require Import Reader ReaderProofs ArmedReads.
+
+(* "Never waits beyond PauseTimeout": which conn.Read calls carry a read deadline.
+
+   L1, Reader.v: any reader state, any connection script.
+   peekPacket with a PauseTimeout: the log of conn.Read calls grows by [rest ++ first]; [first] is
+   the conn.Read of the initial ReadByte, present only when bufio's buffer is empty on entry (the
+   idle wait for the first byte of a packet; made with whatever deadline state the caller left);
+   every later conn.Read of the call -- remaining length, payload, retries after a progress-making
+   expiry -- is armed.  Once the first byte is there the deadline is cleared on return. *)
+Theorem c13_peek_packet_armed : forall s r s', peek_packet true s = (r, s') ->
+  rcap s' = rcap s /\
+  exists first rest,
+    rlog s' = rest ++ first ++ rlog s /\ Forall armed rest /\
+    (first = [] \/ (rbuf s = [] /\ rerr s = None /\ first = [(rarmed s, rcap s)])) /\
+    ((forall e p, r <> PkErr e p) -> r <> PkBrokerTerm -> rarmed s' = false) /\
+    (rarmed s' = false \/ (rarmed s' = rarmed s /\ rest = [])).
+Proof. exact peek_packet_armed. Qed.
+Print Assumptions c13_peek_packet_armed.
+
+(* with bytes buffered on entry there is no exception at all *)
+Theorem c13_peek_packet_buffered : forall s r s',
+  peek_packet true s = (r, s') -> rbuf s <> [] -> armed_ext s s'.
+Proof. exact peek_packet_buffered_armed. Qed.
+Print Assumptions c13_peek_packet_buffered.
+
+(* Client.discard (BigMessage left unread, duplicate beyond the buffer): all armed, cleared on return *)
+Theorem c13_discard_armed : forall s n r s',
+  client_discard true s n = (r, s') -> armed_ext s s' /\ rarmed s' = false.
+Proof. exact client_discard_armed. Qed.
+Print Assumptions c13_discard_armed.
+
+(* BigMessage.ReadAll after the F19 repair: all armed, cleared on return *)
+Theorem c13_read_all_armed : forall s size r s',
+  read_all true s size = (r, s') -> armed_ext s s' /\ rarmed s' = false.
+Proof. exact read_all_armed. Qed.
+Print Assumptions c13_read_all_armed.
+
+(* the CONNACK wait: Peek(4) under the deadline handshake sets *)
+Theorem c13_connack_armed : forall s n r s', rarmed s = true -> peek s n = (r, s') -> armed_ext s s'.
+Proof. exact peek_armed. Qed.
+Print Assumptions c13_connack_armed.
+
+(* L2, Session.v: one API call -- any operation, any client state with the deadline cleared, any
+   world (all tapes, scripted or genuine Persistence): the deadline is cleared again afterwards, and
+   with a PauseTimeout every QRead the call logs is armed or asks for the full buffer capacity, i.e.
+   is made with bufio empty *)
+Theorem c13_step_reads_armed : forall c o w c' r w',
+  k_rarm c = false -> step c o w = Some ((c', r), w') ->
+  k_rarm c' = false /\
+  s_pause (k_cfg c') = s_pause (k_cfg c) /\ s_rcap (k_cfg c') = s_rcap (k_cfg c) /\
+  exists new, w_log w' = new ++ w_log w /\
+              (s_pause (k_cfg c) = true -> reads_armed_or_idle (s_rcap (k_cfg c)) new).
+Proof. exact step_reads_armed. Qed.
+Print Assumptions c13_step_reads_armed.
+
+(* ... and the read that may be unarmed is the first conn.Read of a peekPacket call entered with
+   the session's buffer empty (every iteration of the read loop starts with that call:
+   ArmedReads.read_loop_starts_with_peek) *)
+Theorem c13_peek_packet_call_reads : forall c w c1 pk w1,
+  s_pause (k_cfg c) = true ->
+  with_reader c (peek_packet (s_pause (k_cfg c))) w = Some ((c1, pk), w1) ->
+  exists first rest,
+    w_log w1 = rest ++ first ++ w_log w /\ reads_all_armed rest /\
+    (first = [] \/
+     (k_rbuf c = [] /\ k_rerr c = None /\ first = [QRead (conn_of c) (k_rarm c) (s_rcap (k_cfg c))])) /\
+    ((forall e p, pk <> PkErr e p) -> pk <> PkBrokerTerm -> k_rarm c1 = false).
+Proof. exact peek_packet_call_reads. Qed.
+Print Assumptions c13_peek_packet_call_reads.
+
+(* BigMessage.ReadAll as an API call: every conn.Read armed, without exception and in any state *)
+Theorem c13_op_read_all_armed : forall c w c' r w',
+  s_pause (k_cfg c) = true -> step c OpReadAll w = Some ((c', r), w') ->
+  exists new, w_log w' = new ++ w_log w /\ reads_all_armed new.
+Proof. exact op_read_all_armed. Qed.
+Print Assumptions c13_op_read_all_armed.
+
+(* every reachable state of the closed system (any history, OpAdopt included, any scripts) has
+   the deadline cleared, so the step theorem applies to every call of every history *)
+Theorem c13_reachable_disarmed : forall s, reachable s -> k_rarm (sy_c s) = false.
+Proof. exact reachable_disarmed. Qed.
+Print Assumptions c13_reachable_disarmed.
+
+Theorem c13_reachable_reads_armed : forall s o tp s' r log,
+  reachable s -> s_pause (k_cfg (sy_c s)) = true -> exec s o tp = Some (s', r, log) ->
+  reads_armed_or_idle (s_rcap (k_cfg (sy_c s))) log.
+Proof. exact reachable_reads_armed. Qed.
+Print Assumptions c13_reachable_reads_armed.
+
+(* the same for every client state reachable under ANY worlds *)
+Theorem c13_reach_disarmed : forall c, InboundProofs.reach c -> k_rarm c = false.
+Proof. exact reach_disarmed. Qed.
+Print Assumptions c13_reach_disarmed.
+
+(* non-vacuity: a fragmented stream with a progress-making expiry, two ReadSlices calls; the two
+   unarmed reads are the waits for the first byte of the first and of the third packet *)
+Example c13_reads_nonvacuous :
+  match step ex_rd_client OpRead ex_rd_world with
+  | Some ((c1, r1), w1) =>
+    match step c1 OpRead w1 with
+    | Some ((c2, r2), w2) => Some (r1, r2, w_log w2, k_rarm c2)
+    | None => None
+    end
+  | None => None
+  end =
+  Some (RetMsg [97] [120; 121], RetMsg [98] [],
+        [QRead 0 true 255; QRead 0 false 256; QRead 0 true 256;
+         QRead 0 true 253; QRead 0 true 253; QRead 0 true 255; QRead 0 true 256; QRead 0 false 256],
+        false).
+Proof. exact ex_read_slices. Qed.
+
+Example c13_peek_packet_nonvacuous :
+  (let '(r, s) := peek_packet true (reader_on 256 [] ex_tape) in (r, rlog s, rarmed s)) =
+  (PkOk 48 [0; 1; 97; 120; 121],
+   [(true, 253); (true, 253); (true, 255); (true, 256); (false, 256)], false).
+Proof. exact ex_peek_packet. Qed.
